@@ -384,6 +384,30 @@ def gen_base(R, formats):
     return cases
 
 
+def same_page_cases(R):
+    """Two table levels at the same numeric page address in two different address spaces (the root in
+    KVADDR, the next level at the same address in the target space), and consecutive walks that differ
+    only in the root's address space: the library's read cache must keep the spaces apart."""
+    rng = R.rng
+    lines = []
+    for _ in range(40 if R.tier == "quick" else 600):
+        root = rng.getrandbits(rng.choice([20, 30])) & ~0xfff
+        t = rng.choice([0, 1])
+        addr = rng.getrandbits(47)
+        idx = (addr >> 39) & 0x1ff
+        lines.append("mem %d %d %d %d %d 0" % (rng.getrandbits(48), 0xffffff7f, 1, 0xff, 0))
+        lines.append("clr")
+        lines.append("meth pgt x86_64 %d 2 %d 0 12,9,9,9,9" % (t, root))
+        lines.append("ovr 2 %d %d" % (root + idx * 8, (root & 0xffffffff) | 1))
+        lines.append("ovr 2 %d %d" % (root + idx * 8 + 4, root >> 32))
+        lines.append("walk %d" % addr)
+        # same memory, same numeric root, other address spaces, without resetting the context
+        for ras in (0, 1, 2):
+            lines.append("meth pgt x86_64 %d %d %d 0 12,9,9,9,9" % (t, ras, root))
+            lines.append("walk %d" % addr)
+    return lines
+
+
 def other_methods(R):
     rng = R.rng
     lines = []
@@ -461,6 +485,7 @@ def run(R):
                 lines += ovr64(real[-1][0], real[-1][1], ppc64_entry(R.rng, "leaf"), be)
                 lines.append("walk %d" % addr); meta.append((ci, "ppc64 present last-level PTE"))
                 lines.append("clr")
+    lines += same_page_cases(R)
     lines += other_methods(R)
     text = "\n".join(lines) + "\n"
     exe = R.build_harness("s_walk", ["s_walk.c"])
